@@ -1,6 +1,6 @@
 // Correspondence harness for C04 / C05 (request path of res.Service).
 //
-// A real res.Service is served on a recording connection (the harness implements
+// A real res.Service is served on a recording connection that hands a request to the service once per subscription whose subject matches (the harness implements
 // res.Conn; the service's in-channel is handed over by ChanSubscribe, so *nats.Msg
 // requests are injected directly).  Handlers are closures interpreting the same
 // action SCRIPTS as coq/Req/Model.v and record everything they can read from the
@@ -24,8 +24,10 @@ import (
 	"flag"
 	"fmt"
 	"io"
+	"net/url"
 	"os"
 	"os/exec"
+	"reflect"
 	"runtime"
 	"sort"
 	"strconv"
@@ -637,10 +639,53 @@ func pPubs(ps []pub, reply string) string {
 
 // ---------------------------------------------------------------- recording connection
 
+type recSub struct {
+	subject string
+	ch      chan *nats.Msg
+}
+
 type recConn struct {
 	mu   sync.Mutex
 	pubs []pub
 	inCh chan *nats.Msg
+	subs []recSub
+}
+
+// NATS subject matching: token-wise, * = exactly one token, > = one or more remaining tokens
+func natsMatch(pattern, subject string) bool {
+	pt, st := strings.Split(pattern, "."), strings.Split(subject, ".")
+	for i, t := range pt {
+		if t == ">" && i == len(pt)-1 {
+			return len(st) > i
+		}
+		if i >= len(st) || (t != "*" && t != st[i]) {
+			return false
+		}
+	}
+	return len(pt) == len(st)
+}
+
+// deliver hands the message to the service the way a connection without queue semantics does: once per
+// subscription whose subject matches (overlapping subscriptions => delivered more than once). A subject
+// no subscription matches would not reach the service at all; it is injected once all the same, so that
+// handleRequest is also exercised on what a misbehaving gateway could send.
+func (c *recConn) deliver(m *nats.Msg) int {
+	c.mu.Lock()
+	subs := append([]recSub(nil), c.subs...)
+	in := c.inCh
+	c.mu.Unlock()
+	n := 0
+	for _, sb := range subs {
+		if natsMatch(sb.subject, m.Subject) {
+			cp := *m
+			sb.ch <- &cp
+			n++
+		}
+	}
+	if n == 0 {
+		in <- m
+	}
+	return n
 }
 
 func (c *recConn) Publish(subj string, payload []byte) error {
@@ -653,6 +698,7 @@ func (c *recConn) PublishRequest(subj, reply string, data []byte) error { return
 func (c *recConn) ChanSubscribe(subj string, ch chan *nats.Msg) (*nats.Subscription, error) {
 	c.mu.Lock()
 	c.inCh = ch
+	c.subs = append(c.subs, recSub{subj, ch})
 	c.mu.Unlock()
 	return &nats.Subscription{Subject: subj}, nil
 }
@@ -684,7 +730,8 @@ type recorder struct {
 	cur       map[string]string // resource name -> key of the request being served on it (same group: one at a time)
 	entered   chan struct{}     // one token per stopped handler
 	release   chan struct{}
-	twice     bool // it also reads the request before stopping; both reads must agree
+	sentQuery map[string]string // request key -> the query text sent (ParseQuery is judged against it)
+	twice     bool              // it also reads the request before stopping; both reads must agree
 	viol      []string
 }
 
@@ -732,6 +779,30 @@ func (r *recorder) takeGate(rname string) bool {
 	}
 	r.gateUsed[rname] = true
 	return true
+}
+
+// ParseQuery() must be url.ParseQuery (net/url, trusted) of the query text that was SENT
+func (r *recorder) checkParseQuery(key string, got url.Values) {
+	r.mu.Lock()
+	defer r.mu.Unlock()
+	sent, ok := r.sentQuery[key]
+	if !ok {
+		return
+	}
+	want, _ := url.ParseQuery(sent)
+	if !reflect.DeepEqual(map[string][]string(got), map[string][]string(want)) {
+		r.viol = append(r.viol, fmt.Sprintf("ParseQuery() gives %v for the sent query %q, url.ParseQuery of it is %v", got, sent, want))
+	}
+}
+
+func sentQueries(reqs ...Request) map[string]string {
+	m := map[string]string{}
+	for _, rq := range reqs {
+		if len(rq.Parts) == 3 && rq.PKind != "bad" {
+			m[reqKey(rq.Parts[1], rq.Parts[0], rq.Parts[2])] = rq.Data.Query
+		}
+	}
+	return m
 }
 
 func (r *recorder) logOf(key string) []string {
@@ -934,6 +1005,7 @@ func (h hctx) runOuter(r *res.Request, script []Action) {
 	}
 	rn = reqKey(rn, r.Type(), r.Method()) // from here on: the key of this request's records
 	h.rec.setCur(r.ResourceName(), rn)
+	h.rec.checkParseQuery(rn, r.ParseQuery())
 	if h.rec.takeGate(r.ResourceName()) {
 		first := ""
 		if h.rec.twice {
@@ -1474,6 +1546,9 @@ func fullName(svc, local string) string {
 	if svc == "" {
 		return local
 	}
+	if local == "" {
+		return svc // the root pattern of a named service
+	}
 	return svc + "." + local
 }
 
@@ -1663,7 +1738,7 @@ func probe(s *res.Service, conn *recConn, d desc, tag string) bool {
 	subj := "call." + fullName(d.Service, probeName) + ".ping"
 	reply := "_INBOX.probe." + tag
 	c := hub.expect(subj)
-	conn.inCh <- &nats.Msg{Subject: subj, Reply: reply}
+	conn.deliver(&nats.Msg{Subject: subj, Reply: reply})
 	if !wait(c, 5*time.Second) {
 		return false
 	}
@@ -1690,7 +1765,7 @@ func passListener(conn *recConn, d desc, before int64, tag string) (enqueued int
 	sentinelWid.Store(fullName(d.Service, probeName))
 	subj := "call." + fullName(d.Service, probeName) + ".ping"
 	c := hub.expect(subj)
-	conn.inCh <- &nats.Msg{Subject: subj, Reply: "_INBOX.probe.sentinel." + tag}
+	conn.deliver(&nats.Msg{Subject: subj, Reply: "_INBOX.probe.sentinel." + tag})
 	passed = wait(sentinelEnq, 5*time.Second)
 	sentinelWid.Store("")
 	if passed {
@@ -1699,20 +1774,23 @@ func passListener(conn *recConn, d desc, before int64, tag string) (enqueued int
 	return atomic.LoadInt64(&enqCount) - before - 1, passed
 }
 
-func runSingle(d desc) string {
-	rec := &recorder{}
+func runSingle(d desc) (string, []string) {
+	rec := &recorder{sentQuery: sentQueries(d.Req)}
 	s, conn, served := startService(d, rec)
 	rq := d.Req
 	route := routeTerm(s, d, rq)
 	mark := len(conn.snapshot())
 	c := hub.expect(rq.Subject)
 	before := atomic.LoadInt64(&enqCount)
-	conn.inCh <- &nats.Msg{Subject: rq.Subject, Reply: rq.Reply, Data: []byte(rq.Payload)}
+	conn.deliver(&nats.Msg{Subject: rq.Subject, Reply: rq.Reply, Data: []byte(rq.Payload)})
 	// bounded and fast whatever happens to the request: handed to a worker => wait for its completion note;
 	// not handed over (malformed subject, no reply subject, dropped by the listener) => judged "not completed"
 	done := false
 	if enq, passed := passListener(conn, d, before, "x"); passed && enq >= 1 {
-		done = wait(c, 5*time.Second)
+		// a request delivered through several overlapping subscriptions is handed over (and answered) as often
+		for i := int64(0); i < enq && i < 8; i++ {
+			done = wait(c, 5*time.Second)
+		}
 	}
 	probeOK := probe(s, conn, d, "x")
 	rec.mu.Lock()
@@ -1731,7 +1809,10 @@ func runSingle(d desc) string {
 	case <-time.After(5 * time.Second):
 	}
 	hub.clear()
-	return fmt.Sprintf("RC %s %s %s false %s %s %s %s", route, partsTerm(rq), msgTerm(rq), pPubs(ps, rq.Reply), List(logTerms), Bool(done), Bool(probeOK))
+	rec.mu.Lock()
+	viol := append([]string(nil), rec.viol...)
+	rec.mu.Unlock()
+	return fmt.Sprintf("RC %s %s %s false %s %s %s %s", route, partsTerm(rq), msgTerm(rq), pPubs(ps, rq.Reply), List(logTerms), Bool(done), Bool(probeOK)), viol
 }
 
 var lookupsMade int64
@@ -1751,7 +1832,7 @@ func lookupName(d desc, g, n int) string {
 }
 
 func runConc(d desc) []string {
-	rec := &recorder{keyed: true, yield: 3}
+	rec := &recorder{keyed: true, yield: 3, sentQuery: sentQueries(d.Reqs...)}
 	s, conn, served := startService(d, rec)
 	chans := make([]chan struct{}, len(d.Reqs))
 	// subjects repeat: count completions per subject
@@ -1807,7 +1888,7 @@ func runConc(d desc) []string {
 			defer wg.Done()
 			for i := f; i < len(d.Reqs); i += feeders {
 				rq := d.Reqs[i]
-				conn.inCh <- &nats.Msg{Subject: rq.Subject, Reply: rq.Reply, Data: []byte(rq.Payload)}
+				conn.deliver(&nats.Msg{Subject: rq.Subject, Reply: rq.Reply, Data: []byte(rq.Payload)})
 			}
 		}(f)
 	}
@@ -1869,7 +1950,7 @@ func runFlood(d desc) ([]string, []string) {
 	}
 	var viol []string
 	send := func(rq Request) {
-		conn.inCh <- &nats.Msg{Subject: rq.Subject, Reply: rq.Reply, Data: []byte(rq.Payload)}
+		conn.deliver(&nats.Msg{Subject: rq.Subject, Reply: rq.Reply, Data: []byte(rq.Payload)})
 	}
 	for _, rq := range held {
 		send(rq)
@@ -1949,9 +2030,9 @@ func runPair(d desc) ([]string, []string) {
 	rec := &recorder{keyed: true, gateNames: map[string]bool{a.Parts[1]: true}, entered: make(chan struct{}, 1), release: make(chan struct{}), twice: d.Twice}
 	s, conn, served := startService(d, rec)
 	ca, cb := hub.expect(a.Subject), hub.expect(b.Subject)
-	conn.inCh <- &nats.Msg{Subject: a.Subject, Reply: a.Reply, Data: []byte(a.Payload)}
+	conn.deliver(&nats.Msg{Subject: a.Subject, Reply: a.Reply, Data: []byte(a.Payload)})
 	enteredOK := wait(rec.entered, 5*time.Second)
-	conn.inCh <- &nats.Msg{Subject: b.Subject, Reply: b.Reply, Data: []byte(b.Payload)}
+	conn.deliver(&nats.Msg{Subject: b.Subject, Reply: b.Reply, Data: []byte(b.Payload)})
 	doneB := wait(cb, 2*time.Second)
 	close(rec.release)
 	doneA := wait(ca, 2*time.Second)
@@ -2026,7 +2107,9 @@ func childMain(file string, from int) {
 		} else if ds[i].Kind == "flood" {
 			r.Terms, r.Viol = runFlood(ds[i])
 		} else {
-			r.Terms = []string{runSingle(ds[i])}
+			var t string
+			t, r.Viol = runSingle(ds[i])
+			r.Terms = []string{t}
 		}
 		line, _ := json.Marshal(r)
 		w.Write(line)
@@ -2337,6 +2420,10 @@ type shape struct {
 	badIdx   int
 }
 
+// queries as sent: plain ones, and ones starting with / containing each separator-like byte - the accessor must
+// hand the text on unchanged (the "?" of a resource ID is NOT part of the query field)
+var queryPool = []string{"q=1", "a=b&c=d", "", "x y", "?a=b", "??a=b", "?", "&a=b", "=", "=v", ".q=1", " a=b", "%41=1", "a=b?", "a%", "a=b&", "&", "a.b=c.d", "%3Fa=b", "a=?b"}
+
 var badPayloads = []string{"{", "[]", "nul", `{"cid":5}`, `{"isHttp":"yes"}`, `"str"`, `{"cid":"a"`, " ", `{"header":{"a":"b"}}`}
 var rawPool = []string{`{"a":1}`, `[1,2]`, `"str"`, `null`, `12`, `{"nested":{"x":[true,null]}}`, `{"foo":"bär"}`}
 
@@ -2384,7 +2471,7 @@ func genData(r *Rng, kind string) (ReqData, string) {
 		parts = append(parts, `"uri":`+js(d.URI))
 	}
 	if has() {
-		d.Query = r.Pick([]string{"q=1", "a=b&c=d", "", "x y"})
+		d.Query = r.Pick(queryPool)
 		parts = append(parts, `"query":`+js(d.Query))
 	}
 	if has() {
@@ -2724,6 +2811,35 @@ func genFlood(prop string, gseed uint64, idx, inCh, workers, nflood, nlate int) 
 	return d
 }
 
+// requests to the ROOT resource of a named service (pattern ""): subjects call.<svc>.<method>, auth.<svc>.<method>,
+// get.<svc>, access.<svc> - the ones that several of the default subscriptions can match at once
+func genRootCase(r *Rng, prop string, seq, k int) desc {
+	types := []string{"call", "auth", "call", "auth", "get", "access"}
+	mc := []string{"named", "star", "none", "new-handler", "named", "none"}[(k/6)%6]
+	typ := types[k%6]
+	if typ == "auth" && mc == "new-handler" {
+		mc = "named"
+	}
+	d := genCase(r, shape{typ: typ, mcase: mc, present: true, hpresent: k%5 != 4,
+		pkind: []string{"empty", "partial", "full", "bad", "partial"}[(k/3)%5], badIdx: k}, prop, seq)
+	svc := []string{"test", "svc", "lib.v2"}[k%3]
+	d.Service = svc
+	root := d.Patterns[0]
+	root.Pattern, root.Mounts = "", nil
+	if strings.Contains(root.Group, "${") {
+		root.Group = "grp"
+	}
+	d.Patterns = []PatternDef{root, {Pattern: "zz", H: Handlers{Pid: 1, Call: map[string][]Action{"*": {{Op: "reply", Kind: "ok", V: &Val{K: "str", S: "distractor"}}}}}}}
+	me := d.Req.Parts[2]
+	d.Req.Parts = []string{typ, svc, me}
+	if typ == "call" || typ == "auth" {
+		d.Req.Subject = typ + "." + svc + "." + me
+	} else {
+		d.Req.Subject = typ + "." + svc
+	}
+	return d
+}
+
 // degenerate but deliverable resource names: "<service>.", "<service>..x", "<service>.a.", dots only, empty -
 // with and without method tokens, for named and unnamed services. The subject is still well-formed for
 // handleRequest (type, name, method), so exactly one response is due (normally system.notFound).
@@ -2789,6 +2905,9 @@ func uniqData(r *Rng, id int, kind string) (ReqData, string) {
 	}
 	if has() {
 		d.Query = fmt.Sprintf("id=%d&p=%s", id, pad(id*17%29))
+		if id%3 == 1 {
+			d.Query = queryPool[id%len(queryPool)] + d.Query // separator-like bytes in front of the unique part
+		}
 		parts = append(parts, `"query":`+js(d.Query))
 	}
 	if has() {
@@ -2950,6 +3069,7 @@ func main() {
 	var ds []desc
 	mountTag := map[int]string{}
 	degTag := map[int]bool{}
+	rootTag := map[int]bool{}
 	dist := map[string]int{}
 	seq := 0
 	add := func(d desc) {
@@ -3074,6 +3194,15 @@ func main() {
 		for k := 0; k < 10; k++ {
 			add(malformed(r, *prop, seq, k))
 		}
+		// (c0) the root resource of a named service
+		nroot := 72
+		if o.Tier == "thorough" {
+			nroot = 720
+		}
+		for k := 0; k < nroot; k++ {
+			rootTag[len(ds)] = true
+			add(genRootCase(r, *prop, seq, k))
+		}
 		// (c') degenerate but deliverable resource names
 		ndeg := 80
 		if o.Tier == "thorough" {
@@ -3134,7 +3263,9 @@ func main() {
 		}
 		for _, v := range viols[i] {
 			tag := "overlap-pair"
-			if d.Kind == "conc" {
+			if strings.HasPrefix(v, "ParseQuery()") {
+				tag = "parse-query"
+			} else if d.Kind == "conc" {
 				tag = "routing"
 			} else if d.Kind == "flood" {
 				tag = "queue-flood"
@@ -3203,6 +3334,10 @@ func main() {
 		ne, be := scan(scripts...)
 		if ne {
 			c.Tags = append(c.Tags, "nil-error")
+		}
+		if rootTag[i] {
+			c.Tags = append(c.Tags, "root-resource")
+			dist["root-resource"]++
 		}
 		if degTag[i] {
 			c.Tags = append(c.Tags, "degenerate-name")
@@ -3282,6 +3417,6 @@ func main() {
 			}
 		}
 	}
-	rule := "one request per case against a freshly served res.Service on a recording connection (scripts of 0-6 actions per handler incl. ParseParams/ParseToken into typed targets, a third of the handler sets built through the Option API (GetModel/GetCollection/GetResource, Set, ...), 150 option lists with conflicts checked against the documented registration panics, panic values incl. real runtime errors: index out of range, nil map write, nil dereference, divide by zero, failed type assertion; product of request type x method case {named,*,none,new with/without New handler,empty} x resource matched/unmatched x handler present/absent x payload {full,partial,empty,{},null,6 undecodable texts} + random shapes + malformed subjects + 80 degenerate but deliverable resource names (<service>., <service>..x, trailing dot, dots only, empty; all four types, named and unnamed services) + 2 rounds of 200 concurrent requests over 20 resource patterns, each request on its own resource name with payload values unique to it, handlers yielding before they read, compared per reply subject and per-request handler observations + 2 rounds of 200 requests on patterns with 12 path params routed while 4 goroutines call Service.With / Service.Resource on other names of the same token count (the load rounds have 3 such goroutines too); params and group expected in concurrent cases are derived from the subject with Pattern.Values + payloads that start with a valid JSON value (trailing bytes, two concatenated values, NUL/BOM/whitespace variants; validity judged by json.Valid on the bytes sent) + 126 requests on handler sets with sub-Muxes mounted (Mount/Route, depth 1-2, handlers added before/after mounting) under parent patterns that have placeholders at the mount position: names matching inside a mount, names entering a mount path but matching only a pattern of the parent / of the outer mount, near misses; expected path params and group always derived from subject + full registered pattern, never from the Mux + 6 queue-flood scenarios (in-channel size 1/2/4, 1-2 workers all held in stopped handlers, 40 requests on distinct and repeated resources delivered meanwhile, 6 more after release; thorough also the default 1024/32 with 3000 pending) + 60 overlap pairs: request A stopped inside its handler before (or between two) reads of its fields until request B on another worker group was processed completely, half of them under GOMAXPROCS=1); non-trivial = well-formed request whose pattern carries a non-empty script or whose payload does not decode; distinct by the whole case term"
+	rule := "one request per case against a freshly served res.Service on a recording connection that hands a request to the service once per subscription whose subject matches (scripts of 0-6 actions per handler incl. ParseParams/ParseToken into typed targets, a third of the handler sets built through the Option API (GetModel/GetCollection/GetResource, Set, ...), 150 option lists with conflicts checked against the documented registration panics, panic values incl. real runtime errors: index out of range, nil map write, nil dereference, divide by zero, failed type assertion; product of request type x method case {named,*,none,new with/without New handler,empty} x resource matched/unmatched x handler present/absent x payload {full,partial,empty,{},null,6 undecodable texts} + random shapes + 72 requests to the root resource of a named service (the empty pattern) + malformed subjects + 80 degenerate but deliverable resource names (<service>., <service>..x, trailing dot, dots only, empty; all four types, named and unnamed services) + 2 rounds of 200 concurrent requests over 20 resource patterns, each request on its own resource name with payload values unique to it, handlers yielding before they read, compared per reply subject and per-request handler observations + 2 rounds of 200 requests on patterns with 12 path params routed while 4 goroutines call Service.With / Service.Resource on other names of the same token count (the load rounds have 3 such goroutines too); params and group expected in concurrent cases are derived from the subject with Pattern.Values + payloads that start with a valid JSON value (trailing bytes, two concatenated values, NUL/BOM/whitespace variants; validity judged by json.Valid on the bytes sent) + 126 requests on handler sets with sub-Muxes mounted (Mount/Route, depth 1-2, handlers added before/after mounting) under parent patterns that have placeholders at the mount position: names matching inside a mount, names entering a mount path but matching only a pattern of the parent / of the outer mount, near misses; expected path params and group always derived from subject + full registered pattern, never from the Mux + 6 queue-flood scenarios (in-channel size 1/2/4, 1-2 workers all held in stopped handlers, 40 requests on distinct and repeated resources delivered meanwhile, 6 more after release; thorough also the default 1024/32 with 3000 pending) + 60 overlap pairs: request A stopped inside its handler before (or between two) reads of its fields until request B on another worker group was processed completely, half of them under GOMAXPROCS=1); non-trivial = well-formed request whose pattern carries a non-empty script or whose payload does not decode; distinct by the whole case term"
 	Emit(o, *prop, "From GoRes Require Import Run.Run_"+*prop+".", "rcase", rule, cases, dist, map[string]interface{}{"children_crashed": dist["crashed"], "racing_lookups_made": totalLookups}, impl, 250)
 }
